@@ -9,6 +9,7 @@
 package simrt
 
 import (
+	"strconv"
 	"fmt"
 	"runtime"
 	"sort"
@@ -682,7 +683,8 @@ func (s *Sim) controller() {
 		w.steps++
 		s.hash = hashStep(s.hash, w.id, w.site)
 		if s.cfg.Trace {
-			s.trace = append(s.trace, fmt.Sprintf("%d %s %s c=%d/%d t=%v", s.seq, w.id, w.site, idx, len(ebuf), s.vnowLocked().Sub(s.start)))
+			// no fmt here: its printer pool would be shared with workers behind the race detector's back
+			s.trace = append(s.trace, strconv.FormatUint(s.seq, 10)+" "+w.id+" "+w.site+" c="+strconv.Itoa(idx)+"/"+strconv.Itoa(len(ebuf))+" t="+s.vnowLocked().Sub(s.start).String())
 		}
 		w.state = stRunning
 		iunlock(&s.mu)
